@@ -398,6 +398,31 @@ def clone_faithful(rep, lib, rid="C12-CLONE-FAITHFUL"):
             continue
         b = bodies[0]
         key = "Clone for %s" % ty.rsplit("::", 1)[-1]
+        problems = clone_problems(lib, imp, adt, b)
+        where = "%s:%d" % (imp["loc"]["file"], imp["loc"]["line"])
+        if problems:
+            r.bad(key, problems[0] + ("" if imp.get("derived") else " (hand-written impl)"), where)
+        else:
+            r.ok(key, "%s, %d variant(s): field-wise" % ("derived" if imp.get("derived") else "hand-written",
+                                                         len(adt["variants"])), where,
+                 nontrivial=not imp.get("derived"))
+    return r
+
+
+def clone_body_ok(lib, body_name):
+    """body_name is the clone() of a Clone impl of a crate type that copies field-wise (see clone_problems)."""
+    for imp in lib.impls:
+        if (imp.get("trait") or "") == "std::clone::Clone" and body_name in imp.get("items", []):
+            adt = lib.adts.get((imp.get("self") or "").split("<")[0])
+            b = lib.bodies.get(body_name)
+            return bool(adt and b is not None and not clone_problems(lib, imp, adt, b))
+    return False
+
+
+def clone_problems(lib, imp, adt, b):
+    from lib.peval import PE
+    ty = imp.get("self") or ""
+    if True:
         problems = []
         for vi, v in enumerate(adt["variants"]):
             toks = tuple(("tok", "field", vi, fi) for fi in range(len(v["fields"])))
@@ -421,11 +446,58 @@ def clone_faithful(rep, lib, rid="C12-CLONE-FAITHFUL"):
                 problems.append("a clone of %s%s is %s, not the same %s with each field cloned" % (
                     ty.rsplit("::", 1)[-1], ("::" + v["name"]) if len(adt["variants"]) > 1 else "", got[:2],
                     "variant" if len(adt["variants"]) > 1 else "struct"))
-        where = "%s:%d" % (imp["loc"]["file"], imp["loc"]["line"])
-        if problems:
-            r.bad(key, problems[0] + ("" if imp.get("derived") else " (hand-written impl)"), where)
-        else:
-            r.ok(key, "%s, %d variant(s): field-wise" % ("derived" if imp.get("derived") else "hand-written",
-                                                         len(adt["variants"])), where,
-                 nontrivial=not imp.get("derived"))
-    return r
+        return problems
+
+
+def eq_structural(lib, ty):
+    """None if the PartialEq impl of `ty` (derived or hand-written) is the structural one - different variants are
+    unequal, equal variants are equal exactly when every pair of corresponding fields is (each compared with ==,
+    same position) - otherwise a description of what differs."""
+    from lib.peval import PE
+    imps = [i for i in lib.impls if i.get("trait") == "std::cmp::PartialEq" and i["self"] == ty]
+    adt = lib.adts.get(ty)
+    if len(imps) != 1 or not adt:
+        return "no single PartialEq impl"
+    if imps[0].get("derived"):
+        return None
+    bodies = [lib.bodies.get(x) for x in imps[0].get("items", []) if x.endswith("::eq")]
+    if not bodies or bodies[0] is None:
+        return "eq body not found"
+    b = bodies[0]
+    nv = len(adt["variants"])
+    for vi in range(nv):
+        for vj in range(nv):
+            fi = adt["variants"][vi]["fields"]
+            fj = adt["variants"][vj]["fields"]
+            a = ("adt", vi, tuple(("tok", "a", k) for k in range(len(fi))))
+            c = ("adt", vj, tuple(("tok", "b", k) for k in range(len(fj))))
+            for answer in (True, False):
+                pairs = []
+
+                def model(cc, av, envv, pe, answer=answer):
+                    cal = cc.callee or ""
+                    if cal in ("std::cmp::PartialEq::eq", "std::cmp::PartialEq::ne") and len(av) >= 2:
+                        x, y = pe._deref_all(envv, av[0]), pe._deref_all(envv, av[1])
+                        if x is not None and y is not None and x[0] == "tok" and y[0] == "tok":
+                            pairs.append((x, y))
+                            return (True, ("b", answer if cal.endswith("eq") else not answer))
+                    return None
+                try:
+                    res = PE(b, model, crate=lib).run(env={1: ("rv", a), 2: ("rv", c)})
+                except RuntimeError:
+                    return "not evaluated"
+                vals = {v for _, v in res.returns}
+                vn = (adt["variants"][vi]["name"], adt["variants"][vj]["name"])
+                if vi != vj:
+                    if vals != {("b", False)}:
+                        return "%s == %s can be %s" % (vn[0], vn[1], sorted(map(str, vals)))
+                    continue
+                if any(x[2] != y[2] or x[1] == y[1] for x, y in pairs):
+                    return "%s: fields of different positions are compared" % vn[0]
+                want = True if (answer or not fi) else False
+                if vals != {("b", want)}:
+                    return "%s == %s with every field %s is %s" % (vn[0], vn[1], "equal" if answer else "unequal",
+                                                                 sorted(map(str, vals)))
+                if fi and answer and len({x[2] for x, y in pairs}) != len(fi):
+                    return "%s: not every field is compared" % vn[0]
+    return None
